@@ -647,7 +647,7 @@ func (e *SpecEnv) evalBinary(x *EBinary) SV {
 		return SV{t: t, typ: boolT}
 	case "<", "<=", ">", ">=":
 		if tc.sortOfSV(a) == "Str" {
-			e.fail("string ordering unsupported in specs")
+			return SV{t: e.fc.strOrder(x.Op, a.t, b.t), typ: boolT} // ext_strorder.go
 		}
 		return SV{t: app(x.Op, a.t, b.t), typ: boolT}
 	case "+":
